@@ -201,7 +201,7 @@ fn gen_other(t: &mut Tape, pool: &Pool, p: &IlParams, max_blocks: usize, allow_i
             exit = None;
         }
     }
-    FnSpec { address: 0x4000, blocks, edges, entry, exit }
+    FnSpec { address: 0x4000, blocks, edges, entry, exit, gaps: vec![] }
 }
 
 fn gen_ref_head(t: &mut Tape) -> Ref {
